@@ -85,12 +85,15 @@ def main(ck):
     every = max(1, nsteps // NSAMPLE)
     Es, Ps = [], []
     maxang = [0.0]
+    maxcond = [0.0]
 
     def sample():
       lib.mj_forward(m, d)
       Es.append(np.array(d.energy))
       for (pa, ref) in quat_springs:
         maxang[0] = max(maxang[0], kin.quat_dist(np.array(d.qpos[pa:pa + 4]), ref))
+      ww = np.linalg.eigvalsh(lib.fullM(m, d))
+      maxcond[0] = max(maxcond[0], float(ww[-1] / ww[0]) if ww[0] > 0 else np.inf)
       if root_bodies:
         lib.mj_subtreeVel(m, d)
         Ps.append(np.concatenate([np.concatenate([float(m.body_subtreemass[b]) * np.array(d.subtree_linvel[b]),
@@ -105,7 +108,7 @@ def main(ck):
     Es = np.array(Es)
     if not np.all(np.isfinite(Es)):
       return None
-    return Es, (np.array(Ps) if root_bodies else None), maxang[0]
+    return Es, (np.array(Ps) if root_bodies else None), maxang[0], maxcond[0]
 
   def test(case):
     gm, seed = case
@@ -283,6 +286,9 @@ def main(ck):
     nt = moving >= 2 and rot and exchange > 0.01
     sample = dict(xml=gm.xml, seed=seed, h=h, drift=drift, energy_scale=escale, exchange=exchange, momentum_roots=roots)
     # the rotation-spring potential has a kink at angle pi (shortest-rotation log flips): no smooth-ODE claims there
+    if not carve and max(r[3] for r in res) > 1e4:
+      labels.append('illconditioned-along-trajectory')
+      carve = True
     if not carve and max(r[2] for r in res) > 2.6:
       labels.append('carved:quat-spring-near-pi')
       carve = True
